@@ -266,6 +266,21 @@ theorem partWrite_inType (w : Nat) (cur val : Int) (hi lo : Nat) (h : lo ≤ hi)
   · nlinarith
   · rw [hsplit]; nlinarith
 
+/-- **part-select write, stored in the declared type** (both signs): the value a field holds
+    after `f[hi:lo] = val` lies in its declared type, and agrees with the bit-level result of the
+    write on all `w` bits of the field -/
+theorem partWriteField_spec (w : Nat) (hw : 0 < w) (s : Bool) (cur val : Int) (hi lo : Nat) (h : lo ≤ hi) :
+    ∃ raw n, partWrite cur hi lo val = some raw ∧ partWriteField w s cur hi lo val = some n ∧
+      InType w s n ∧ n % (2 ^ w : Int) = raw % (2 ^ w : Int) := by
+  obtain ⟨raw, hraw, _⟩ := partWrite_spec cur val hi lo h
+  refine ⟨raw, scalarWrite w s raw, hraw, by simp [partWriteField, hraw], ?_, ?_⟩
+  · have := scalar_read_after_write w hw s raw
+    simp only [scalarRead] at this
+    rw [this]; exact wrap_inType w hw s raw
+  · have := scalar_read_after_write w hw s raw
+    simp only [scalarRead] at this
+    rw [this]; exact wrap_congr w s raw
+
 /-! ### enums -/
 
 theorem v2e_go_spec (v : Int) : ∀ (l : List Int) (i : Nat) (acc : Option Nat),
